@@ -328,6 +328,30 @@ MUTANTS: List[Tuple[str, List[Tuple[str, str, str]], List[Tuple[str, str]]]] = [
      [('C12', 'RT-7')]),
     ('lk1-oneof-task-not-registered', [(M, "        task = asyncio.create_task(coro, name=name)\n", "        task = asyncio.create_task(coro, name=name)\n        if name.startswith('oneof'):\n            return task\n")],
      [('C14', 'LK-1'), ('C13', 'LK-1')]),
+    # ---- round 11 of seeded changes / refactoring round 9 (DESIGN 9.25, 9.26)
+    ('sh11-locks-of-all-runs-from-one-module-table', [(M, "        self._lock_manager = DAGConcurrentManagerLock(self.dag.node_map.keys())\n", "        self._lock_manager = DAGConcurrentManagerLock(self.dag.node_map.keys(), event_lock_store=_EVENTS)\n"),
+                                                       (M, "@dataclass\nclass DAGConcurrentManagerLock:", "_EVENTS: t.Dict[t.Any, asyncio.Event] = defaultdict(asyncio.Event)\n\n\n@dataclass\nclass DAGConcurrentManagerLock:")],
+     [('C08', 'SH-11'), ('C07', 'SH-11')]),
+    ('sw8-case-dag-cut-from-the-source-of-the-dag', [(M, "                dag=self._get_reduced_dag(\n                    self.dag.input_node,\n                    (self._node_storage.get_switch_result(node_id)).node_id,", "                dag=self._get_reduced_dag(\n                    dag.source,\n                    (self._node_storage.get_switch_result(node_id)).node_id,")],
+     [('C09', 'SW-8')]),
+    ('rc1-at-least-one-iteration', [(M, "        for current_iter in range(max_iterations):", "        for current_iter in range(max(max_iterations, 1)):")],
+     [('C11', 'RC-1')]),
+    ('vl3-message-needs-a-qualname', [(B, "            raise errors.IncorrectTypeClass(f'{node} должен быть классом')", "            raise errors.IncorrectTypeClass(f'{node.__qualname__} должен быть классом')")],
+     [('C16', 'VL-3')]),
+    # ---- round 12 of seeded changes / refactoring round 10 (DESIGN 9.27, 9.28)
+    ('wkn-waiting-request-returns-at-once', [(M, "        try:\n            result = await self._execute_node(\n                force_default=force_default,\n                node_id=node_id,\n                dag=dag,\n            )\n",
+                                              "        if not is_executor:\n            await self._execute_node(force_default=force_default, node_id=node_id, dag=dag)\n            return\n\n        try:\n            result = await self._execute_node(\n                force_default=force_default,\n                node_id=node_id,\n                dag=dag,\n            )\n")],
+     [('C02', 'WK-n')]),
+    ('er13-caught-error-in-an-f-string', [(M, "logger.error('Execution error node_id=%s', node_id, exc_info=ex)", "logger.error(f'Execution error node_id={node_id}: {ex}', exc_info=ex)")],
+     [('C05', 'ER-13')]),
+    ('bn8-dots-folded-in-every-name', [(N, "    return '__'.join([node_type, node_name])", "    return '__'.join([node_type, node_name]).replace('.', '_')")],
+     [('C15', 'BN-8')]),
+    ('ex5-stopiteration-converted-by-the-awaiting-side', [(N, "    try:\n        return run_method(*args, **kwargs)\n    except StopIteration as ex:\n        raise RuntimeError('node raised StopIteration') from ex\n", "    return run_method(*args, **kwargs)\n"),
+                                                          (N, "        result = await loop.run_in_executor(\n            executor,\n            functools.partial(_run_in_executor, run_method, *args, **kwargs),\n        )\n",
+                                                              "        try:\n            result = await loop.run_in_executor(\n                executor,\n                functools.partial(_run_in_executor, run_method, *args, **kwargs),\n            )\n        except StopIteration as ex:\n            raise RuntimeError('node raised StopIteration') from ex\n")],
+     [('C17', 'EX-5'), ('C02', 'EX-6')]),
+    ('rt6-retryable-by-its-cause', [(M, "            except retry_policy.exceptions as error:  # noqa: PERF203\n", "            except Exception as error:  # noqa: PERF203\n                if not isinstance(error, retry_policy.exceptions) and not isinstance(error.__cause__, retry_policy.exceptions):\n                    if node.use_default:\n                        return run_node_default(node, **kwargs)\n                    raise\n")],
+     [('C12', 'RT-6')]),
 ]
 
 ALL_PROPS = [f'C{n:02d}' for n in range(2, 21)]
@@ -421,6 +445,16 @@ BENIGN: List[Tuple[str, List[Tuple[str, str, str, bool]]]] = [
     ('ex5-pool-hand-over-in-a-helper', [(N, "        result = await loop.run_in_executor(\n            executor,\n            functools.partial(_run_in_executor, run_method, *args, **kwargs),\n        )\n",
                                          "        result = await _hand_over(loop, executor, run_method, args, kwargs)\n", False),
                                         (N, "async def run_node(", "def _hand_over(loop, executor, run_method, args, kwargs):  # noqa: ANN001, ANN202\n    return loop.run_in_executor(executor, functools.partial(_run_in_executor, run_method, *args, **kwargs))\n\n\nasync def run_node(", False)]),
+    # ---- round 11 / refactoring round 9
+    ('on1-concealed-test-in-a-helper', [(S, "    def get(self, key: t.Any, with_hidden: bool = True) -> t.Any:", "    def _is_concealed(self, key: t.Any, with_hidden: bool) -> bool:\n        if with_hidden is not False:\n            return False\n\n        return key in self._hidden_keys\n\n    def get(self, key: t.Any, with_hidden: bool = True) -> t.Any:", False),
+                                        (S, "        if with_hidden is False and key in self._hidden_keys:\n            return False\n\n        return key in self\n", "        return not self._is_concealed(key, with_hidden) and key in self\n", False)]),
+    ('sh5-cache-store-through-attrgetter', [(M, "import functools\n", "import functools\nimport operator\n", False),
+                                            (M, "    @cachedmethod(lambda self: self._memorization_store, key=", "    @cachedmethod(operator.attrgetter('_memorization_store'), key=", False)]),
+    ('rc1-while-loop-with-a-counter', [(M, "        for current_iter in range(max_iterations):\n", "        for current_iter in range(0, max_iterations, 1):\n", False)]),
+    # ---- round 12 / refactoring round 10
+    ('launch-loop-index-driven-while', [(M, "        for node_id in list_node_ids:\n\n            await self._lock_manager.wait_for_condition(", "        position = 0\n        while position < len(list_node_ids):\n            node_id = list_node_ids[position]\n            position += 1\n\n            await self._lock_manager.wait_for_condition(", False)]),
+    ('cancel-loop-over-the-pending-tasks', [(M, "        for coro_task in coro_tasks:\n\n            if coro_task.done() or coro_task.cancelled():\n                continue\n\n            coro_task.cancel()\n            logger.debug('Task %s has been cancelled', coro_task.get_name())\n",
+                                             "        for coro_task in [task for task in coro_tasks if not task.done()]:\n            coro_task.cancel()\n            logger.debug('Task %s has been cancelled', coro_task.get_name())\n", False)]),
 ]
 
 
